@@ -16,10 +16,16 @@ import (
 	"golang.org/x/tools/go/ssa/ssautil"
 )
 
-const (
-	repoDir = "/repo"
-	modPath = "github.com/invopop/gobl"
-)
+const modPath = "github.com/invopop/gobl"
+
+// repoDir is /repo unless VERIF_REPO points at another checkout of the repository (used to try seeded changes
+// in a scratch worktree without touching /repo; the gsx binary must then be built against the same tree).
+var repoDir = func() string {
+	if d := os.Getenv("VERIF_REPO"); d != "" {
+		return d
+	}
+	return "/repo"
+}()
 
 // verifDir is /verif unless VERIF_DIR points at a snapshot of it (background runs).
 var verifDir = func() string {
